@@ -18,6 +18,15 @@ ASSUME = ["well-typedness and agreement of the layer view are evaluated by TLC (
           "bounded: diagrams of the exhaustive model, simulated histories, and what the repository's tests build"]
 
 
+EXTRA_HOOK_ROWS = []
+
+
+def collect_hooks(work, hook_files, coverage, rejected, tier):
+    """keep the diagrams observed by the hook during the rigid machine's replays for the hook leg"""
+    for path in hook_files:
+        EXTRA_HOOK_ROWS.extend(core.read_ndjson(path))
+
+
 def hook_leg(work, hook_files, coverage, rejected, tier):
     """Validate every distinct diagram seen by hook H2: during the replays, and during the
     repository's tests (and doctests in the thorough tier)."""
@@ -33,7 +42,9 @@ def hook_leg(work, hook_files, coverage, rejected, tier):
         raise core.Machinery("suite hook run failed: %s %s" % (p.stdout[-2000:], p.stderr[-2000:]))
     seen, rows = set(), []
     by_cls = Counter()
-    for path in hook_files + [suite_out]:
+    extra = os.path.join(work, "rigid-hook.ndjson")
+    core.write_ndjson(extra, EXTRA_HOOK_ROWS)
+    for path in hook_files + [extra, suite_out]:
         origin = "suite" if path == suite_out else "replay"
         for rec in core.read_ndjson(path):
             h = digest(rec)
@@ -73,9 +84,17 @@ def hook_leg(work, hook_files, coverage, rejected, tier):
 
 
 def run(tier, seed, t0):
+    # the rigid API machine first (cups, caps, swaps, adjoint types); its hook observations join the hook leg
+    covr, rejr = _diagapi.run("C01", "J01", tier, seed, t0, cls="rigid",
+                              invariants=["InvWellTyped", "InvResultsWellTyped"], extra_hook=collect_hooks)
     cov, rej = _diagapi.run("C01", "J01", tier, seed, t0,
                             invariants=["InvWellTyped", "InvResultsWellTyped"], extra_hook=hook_leg)
-    return core.finish("C01", tier, seed, LEVEL, cov, rej, t0, ASSUME)
+    cov["rigid_machine"] = {k: covr[k] for k in ("states", "transitions", "traces_validated_against_impl", "model", "replay",
+                                                 "verdicts_by_clause", "canary")}
+    cov["states"] += covr["states"]
+    cov["transitions"] += covr["transitions"]
+    cov["traces_validated_against_impl"] += covr["traces_validated_against_impl"]
+    return core.finish("C01", tier, seed, LEVEL, cov, rej + rejr, t0, ASSUME)
 
 
 def replay(path):
